@@ -185,6 +185,7 @@ func checkC01(c *Ctx) {
 	checkC01SignalsInExpressions(c)
 	checkC01AliasesAfterShrink(c)
 	checkC01ManyDistinct(c)
+	checkC01ValuesByOrigin(c)
 
 	c.Set("exhaustive", true)
 	c.Set("bounds", map[string]any{"MaxDepth": maxDepth})
